@@ -232,11 +232,30 @@ def run_db_case(fam, kind, rng, rec, ci):
     n = rng.randint(20, 90)
     f22 = False
     f34 = False
+    f35 = False
     for step in range(n):
         present = list(obj['c'].keys())
         w = walker.walk(obj['c'], is_mapping) if is_tree else None
         op, args = g.next_op(w, present)
         log.append((op, args))
+        if fam.vc == 'F' and is_mapping and op in ('setitem', 'update'):
+            # F35 (recorded): in the float-valued families C skips a store
+            # of a value EQUAL to the stored one (no change flag), Python
+            # performs and announces it - from then on the two sides write
+            # different sets of records
+            try:
+                cur = obj['c']
+                if op == 'setitem':
+                    pairs_ = [tuple(args[:2])]
+                else:
+                    m_ = gen.materialize(args[0], fam, 'c', cur, False)
+                    pairs_ = list(m_.items()) if hasattr(m_, 'items') \
+                        else list(m_)
+                for k_, v_ in pairs_:
+                    if k_ in cur and cur[k_] == f32(float(v_)):
+                        f35 = True
+            except Exception:
+                pass
         for impl in ('c', 'py'):
             a = tuple(gen.materialize(x, fam, impl, obj[impl], False)
                       for x in args)
@@ -277,6 +296,8 @@ def run_db_case(fam, kind, rng, rec, ci):
             if diff:
                 d = dict(desc, detail=diff[:600],
                          history=[brief(x, 90) for x in log[-40:]])
+                if f35:
+                    d['finding'] = 'F35'
                 rec.violation('c-and-python-records-differ', **d)
                 return
             # each implementation reads the other's database
